@@ -366,7 +366,9 @@ def run_host(src: str, run: dict, *, timeout_s: float = 5.0, keep_vars: bool = F
     CURRENT = rt
     namespace: Dict[str, Any] = {"__name__": "__main__", "__redu_rt": rt}
     old = signal.signal(signal.SIGALRM, _alarm)
-    signal.setitimer(signal.ITIMER_REAL, timeout_s)
+    old_prof = signal.signal(signal.SIGPROF, _alarm)
+    signal.setitimer(signal.ITIMER_PROF, timeout_s)       # CPU time of the script
+    signal.setitimer(signal.ITIMER_REAL, timeout_s * 20)  # wall clock: distant backstop
     try:
         code = compile(tree, "<script>", "exec")
         with contextlib.redirect_stdout(io.StringIO()):
@@ -393,8 +395,10 @@ def run_host(src: str, run: dict, *, timeout_s: float = 5.0, keep_vars: bool = F
         result.error = f"{exc}"[:200]
         result.error_type = type(exc).__name__
     finally:
+        signal.setitimer(signal.ITIMER_PROF, 0)
         signal.setitimer(signal.ITIMER_REAL, 0)
         signal.signal(signal.SIGALRM, old)
+        signal.signal(signal.SIGPROF, old_prof)
         CURRENT = None
     result.events = rt.events
     result.passes_run = rt.pass_i
